@@ -605,7 +605,8 @@ pub fn run(ctx: &Ctx) -> i32 {
     let max_len = ctx.pick(6usize, 8);
     let ms: Vec<usize> = ctx.pick(vec![1, 2, 4, 16], vec![1, 2, 3, 4, 8, 16, 33]);
     let mut configs = 0u64;
-    for &l in &[1usize, 2, 3] {
+    // l = 4 .. 6 too: small-l code paths (hand-written sorting networks, unrolled loops) end at different l
+    for &l in &[1usize, 2, 3, 4, 5, 6] {
         for &m in &ms {
             for len in l..=max_len {
                 let alpha = if len <= 6 && !ctx.quick() { 5 } else { 4 };
@@ -642,7 +643,7 @@ pub fn run(ctx: &Ctx) -> i32 {
         }
     }
     // instances reseeded through the public change_rng_seed()
-    for &l in &[1usize, 2, 3] {
+    for &l in &[1usize, 2, 3, 4, 5] {
         for &m in &[1usize, 2, 4, 5] {
             for len in l..=ctx.pick(5usize, 6) {
                 for reseeds in 1..=2usize {
@@ -681,7 +682,7 @@ pub fn run(ctx: &Ctx) -> i32 {
         "exhaustive": true,
         "evaluations": st.calls,
         "distinct_nontrivial": st.distinct_sigs,
-        "rule": "every sequence of length l..6 (8 thorough) over a 4-letter (5 for short lengths, thorough) alphabet, l in {1,2,3}, m in {1,2,4,16} (+3,8,33), with the Fnv hasher, with the no-op hasher on items whose hashes are the adjacent integers 1..4, and with the no-op hasher on 64-bit items whose hashes {1, 2^32, 2^32+1, 2^63+1} agree pairwise on their low halves, high halves or xor-fold, and (short sequences) with items that are unequal but hash alike (two tags per element; equal hashes are one element to the sketcher), grouped by multiset: the set of selected (element,occurrence) pairs per position (hook H4) must be identical across all permutations of a multiset and equal the l pairs with the smallest race value (race tables read from the real code on single-element runs); the signature value must be one injective function of the selected elements in sequence order; for l=1 the signature is permutation invariant; results do not depend on 1-2 earlier calls on the instance, including refused calls on sequences shorter than l whose panic is caught; distinct = distinct signatures",
+        "rule": "every sequence of length l..6 (8 thorough) over a 4-letter (5 for short lengths, thorough) alphabet, l in {1,..,6}, m in {1,2,4,16} (+3,8,33), with the Fnv hasher, with the no-op hasher on items whose hashes are the adjacent integers 1..4, and with the no-op hasher on 64-bit items whose hashes {1, 2^32, 2^32+1, 2^63+1} agree pairwise on their low halves, high halves or xor-fold, and (short sequences) with items that are unequal but hash alike (two tags per element; equal hashes are one element to the sketcher), grouped by multiset: the set of selected (element,occurrence) pairs per position (hook H4) must be identical across all permutations of a multiset and equal the l pairs with the smallest race value (race tables read from the real code on single-element runs); the signature value must be one injective function of the selected elements in sequence order; for l=1 the signature is permutation invariant; results do not depend on 1-2 earlier calls on the instance, including refused calls on sequences shorter than l whose panic is caught; distinct = distinct signatures",
         "configs": configs,
         "sequences": st.sequences,
         "multiset_groups": st.groups,
